@@ -420,16 +420,26 @@ namespace S  -- scripts of the in-place method bodies
 def applyToArrays (tag : Nat) : Script :=
   .read fun c _ => .acts (c.blocks.map fun e => .bKern e.1 tag [e.2.toNat]) .nil
 
-/-- `_map_blocks(fn_block, fn_sector)`: `BlockBase._map_blocks` rebinds `_blocks` to a new dict;
-    the `FermionicArray` override then rebinds `_phases` to a new dict with mapped keys
-    (dynamic dispatch = presence of the `_phases` slot) -/
+/-- the sign dict `FermionicArray._map_blocks` builds:
+    `{fn_sector(s): p for s, p in self._phases.items() if s in self._blocks}` — only the entries of
+    STORED blocks (membership in the block dict BEFORE it is re-keyed) are re-keyed; an entry left
+    behind by a dropped block is discarded -/
+def mapPhases (fk : Key → Key) (blocks p : Dict) : Dict :=
+  Dict.mapKeys fk (p.filter fun e => blocks.has e.1)
+
+/-- `_map_blocks(fn_block, fn_sector)`: the `FermionicArray` override (dynamic dispatch = presence
+    of the `_phases` slot) first computes the new sign dict from the entries of the stored blocks
+    (`mapPhases`, read off the block dict as it is on entry); `BlockBase._map_blocks` rebinds
+    `_blocks` to a new dict; the override then rebinds `_phases` to the sign dict it computed.
+    (The dict object is created by the `modify` act that binds it — after the new block dict instead
+    of before it; both are fresh and unreachable from anything else until bound, so the order of the
+    two allocations is not observable.) -/
 def mapBlocks (fk : Key → Key) (tag : Nat) : Script :=
   .read fun c _ =>
-    .acts [.modify { blocks := some (c.blocks.map fun e => (fk e.1, .kern tag [e.2.toNat])) }] <|
-    .read fun c _ =>
-      match c.phases with
-      | some p => .acts [.modify { phases := some (Dict.mapKeys fk p) }] .nil
-      | none => .nil
+    let mb : Act := .modify { blocks := some (c.blocks.map fun e => (fk e.1, .kern tag [e.2.toNat])) }
+    match c.phases with
+    | some p => .acts [mb, .modify { phases := some (mapPhases fk c.blocks p) }] .nil
+    | none => .acts [mb] .nil
 
 /-- `AbelianArray.conj` -/
 def conjA (fi : Nat → Nat) (fc : Int → Int) : Script :=
